@@ -133,7 +133,7 @@ NEEDS = {
     'C10': ['discard', 'op:HD', 'op:BD', 'op:CB', 'op:SD'],
     'C12': ['muck', 'op:HK', 'op:SM'],
     'C13': ['op:BI', 'bring_in_pending'],
-    'C14': ['runout_2plus_requested', 'runout_agreed_2plus', 'push_second_board'],
+    'C14': ['runout_2plus_requested', 'runout_agreed_2plus', 'push_second_board', 'runout_choice_after_a_board_street'],
 }
 
 
